@@ -141,7 +141,8 @@ def handleC19 (inp obs : List String) : Verdict :=
       (if !sa.isEmpty && !sb.isEmpty && max (maxStop sa) (maxStop sb) ≤ specLimit && interCount sa sb == 0 then ["disjoint"] else []) ++
       (if (oa ++ ob).any (fun | .setCov => true | _ => false) && (oa.reverse.takeWhile (fun | .setCov => false | _ => true)).any (fun | .insert _ => true | .merge => true | _ => false) then ["set-cov-then-mutation"] else []) ++
       (if endsMerged oa then [] else []) ++
-      (if topOfRange sa || topOfRange sb then ["top-of-range"] else [])
+      (if topOfRange sa || topOfRange sb then ["top-of-range"] else []) ++
+      (if a.getCov + b.getCov > 18446744073709551615 then ["cov-sum-above-u64max"] else [])
     match o with
     | none => { kind := "specfail", nontrivial, classes, detail := "implementation panicked" }
     | some o =>
